@@ -4209,6 +4209,20 @@ fn attribute_name(name: &parser::AttributeName) -> (String, Option<String>) {
 }
 
 fn attr_value_from_name(name: &str, context: &Context) -> error::Result<String> {
+    expand_entity(name, context, &mut vec![])
+}
+
+fn expand_entity(
+    name: &str,
+    context: &Context,
+    visited: &mut Vec<String>,
+) -> error::Result<String> {
+    // Well-formedness constraint: No Recursion
+    if visited.iter().any(|v| v == name) {
+        return Err(error::Error::InvalidData(format!("&{};", name)));
+    }
+    visited.push(name.to_string());
+
     let entity = context.entity(name)?;
     let mut parsed = String::new();
     for value in entity.borrow().values().unwrap_or_default() {
@@ -4219,7 +4233,7 @@ fn attr_value_from_name(name: &str, context: &Context) -> error::Result<String> 
                 _ => unreachable!(),
             },
             XmlEntityValue::Entity(v) => {
-                let v = attr_value_from_name(v, context)?;
+                let v = expand_entity(v, context, visited)?;
                 parsed.push_str(v.as_str());
             }
             XmlEntityValue::Parameter(v) => {
@@ -4229,6 +4243,8 @@ fn attr_value_from_name(name: &str, context: &Context) -> error::Result<String> 
             XmlEntityValue::Text(v) => parsed.push_str(normalize_ws(v).as_str()),
         }
     }
+
+    visited.pop();
     Ok(parsed)
 }
 
